@@ -61,8 +61,28 @@ Section Valid.
      also exist in the target interpreter *)
   Definition compared_names (ref targ : list Z) : list Z :=
     filter (fun n => memZ n targ) ref.
+
+  (* compare_model's aggregation over the test inputs of one signature:
+       comparison_results = {}
+       for sample: for name in compared names of that run:
+           comparison_results.setdefault(name, []).append(compare_fn(...))
+       aggregated[name] = mean(comparison_results[name])
+     A sample is the list (name, value of compare_fn) in the order the names
+     are visited; [mean] is the reduction (np.mean). *)
+  Fixpoint append_to (d : list (Z * list V)) (k : Z) (v : V) : list (Z * list V) :=
+    match d with
+    | [] => [(k, [v])]
+    | (k', l) :: t => if Z.eqb k k' then (k', l ++ [v]) :: t else (k', l) :: append_to t k v
+    end.
+  Definition add_sample (d : list (Z * list V)) (s : list (Z * V)) : list (Z * list V) :=
+    fold_left (fun d kv => append_to d (fst kv) (snd kv)) s d.
+  Definition collect (samples : list (list (Z * V))) : list (Z * list V) :=
+    fold_left add_sample samples [].
+  Definition aggregate (mean : list V -> V) (samples : list (list (Z * V))) : results :=
+    map (fun kl => (fst kl, mean (snd kl))) (collect samples).
 End Valid.
 
 Arguments pop {V}. Arguments pop_all {V}. Arguments pop_all_skip {V}. Arguments partition {V}.
 Arguments g_inputs {V}. Arguments g_outputs {V}. Arguments g_constants {V}.
 Arguments g_intermediates {V}.
+Arguments append_to {V}. Arguments add_sample {V}. Arguments collect {V}. Arguments aggregate {V}.
